@@ -42,6 +42,7 @@ let show_obs = function
   | OTick (ret, o, dead) ->
     "T" ^ (match ret with None -> "z" | Some t -> string_of_int (iz t)) ^ show_pkts o ^ (if dead then "!" else ".")
   | OWin -> "W"
+  | ORefused -> "R"
 let inflight q = List.length (List.filter (fun p -> iz p.p_att > 0) q)
 let show_state (e : endpoint) =
   let c = e.e_ch in
@@ -97,6 +98,15 @@ let run_pair zlb_recv toks impl =
             let r2 = step zlb_recv !s (mk { r_ig = true; r_zd = zd }) in
             if render (fst r2) (snd r2) = want then r2 else r1
           end
+        | Submit (y, b, sid, t, fj, _) ->
+          (* a side that has declared dead may refuse the submission; take the implementation's answer *)
+          let r1 = step zlb_recv !s ev in
+          let want = if !opi < Array.length itoks then itoks.(!opi) else "" in
+          if render (fst r1) (snd r1) = want then r1
+          else begin
+            let r2 = step zlb_recv !s (Submit (y, b, sid, t, fj, true)) in
+            if render (fst r2) (snd r2) = want then r2 else r1
+          end
         | _ -> step zlb_recv !s ev in
       s := s';
       let after = List.length (ep_of !s x).e_sent in
@@ -108,7 +118,7 @@ let run_pair zlb_recv toks impl =
         let f = String.split_on_char ':' op in
         let kind = op.[0] and x = side_of op.[1] in
         match kind, List.tl f with
-        | 's', (b :: sid :: t :: fl) -> apply x (Submit (x, zi (ios b), zi (ios sid), zi (ios t), fault_of fl))
+        | 's', (b :: sid :: t :: fl) -> apply x (Submit (x, zi (ios b), zi (ios sid), zi (ios t), fault_of fl, false))
         | ('d' | 'u'), (k :: t :: fl) ->
           let l = !(tr x) in
           if l = [] then Buffer.add_string out "- "
@@ -383,7 +393,7 @@ let run_e2e toks =
       end) sent in
   let submit x b now =
     let before = List.length (ep_of !s x).e_sent in
-    s := fst (step false !s (Submit (x, zi b, Z0, zi now, None))); scan x before now in
+    s := fst (step false !s (Submit (x, zi b, Z0, zi now, None, false))); scan x before now in
   let react x b now =
     Hashtbl.add handed (x, b) ();
     if cnt b x = 1 then
